@@ -26,8 +26,26 @@ def h_static(ctx):
         ctx.fail("static-output-served-before-publication")
     except FinamNoDataError:
         ctx.cover("no-data-before-publication")
-    vals = [ctx.real("v0"), ctx.real("v1")]
-    out.push_data(np.array(vals, dtype=object), None if ctx.flag("push_time_none") else ctx.dt("tp"))
+    spill_dir = None
+    if ctx.params.get("spill"):
+        import tempfile
+        spill_dir = tempfile.mkdtemp(prefix="vf_c20_")
+        out.memory_limit, out.memory_location = 0, spill_dir
+        vals = [7.0, 11.0]  # files cannot hold symbolic terms
+        out.push_data(np.array(vals), None if ctx.flag("push_time_none") else ctx.dt("tp"))
+    else:
+        vals = [ctx.real("v0"), ctx.real("v1")]
+        out.push_data(np.array(vals, dtype=object), None if ctx.flag("push_time_none") else ctx.dt("tp"))
+    try:
+        _static_rest(ctx, out, inp, vals, m, static_in, conv)
+    finally:
+        if spill_dir is not None:
+            import shutil
+            out.finalize()
+            shutil.rmtree(spill_dir, ignore_errors=True)
+
+
+def _static_rest(ctx, out, inp, vals, m, static_in, conv):
     calls = []
     with hlib.Spy() as spy:
         spy.wrap(Output, "get_data", before=lambda s, o, *a, **k: calls.append(o is out))
@@ -192,6 +210,10 @@ def families(tier):
              params={"requests": 3 if q else 4, "static_input": True},
              bounds="static output, static input; 3-4 requests each None or a symbolic time",
              must_cover=["no-data-before-publication", "second-publication-refused"]),
+        dict(name="static:spilled", ref="vf.props.c20:h_static",
+             params={"requests": 3, "static_input": False, "spill": True},
+             bounds="static output with memory limit 0 (publication kept in a file), non-static input; 3 requests",
+             must_cover=["no-data-before-publication", "second-publication-refused"], workers=2),
         dict(name="static:plain_input", ref="vf.props.c20:h_static",
              params={"requests": 3 if q else 4, "static_input": False},
              bounds="static output, non-static input; 3-4 requests each None or a symbolic time",
